@@ -351,3 +351,156 @@ Example engine_history_example :
   passes_ok crc32_update [HRefresh true true true RExamples.all Ahead.oc_new; HRebuild] RExamples.st1 /\
   rebuilding crc32_update RExamples.st1 (HRefresh true true true RExamples.all Ahead.oc_new).
 Proof. vm_compute. repeat split; congruence. Qed.
+
+(** * URLs stay unique *)
+Section Urls.
+  Variable crc : N -> bytes -> N.
+
+  Definition urls (st : rstate) : list N := map f_url (r_block st ++ r_allow st).
+
+  Lemma copy_back_url u f : f_url (copy_back u f) = f_url f.
+  Proof. unfold copy_back. destruct (_ && _); reflexivity. Qed.
+
+  Lemma copy_back_all_urls : forall us ls, map f_url (snd (copy_back_all us ls)) = map f_url ls.
+  Proof.
+    induction us as [|u us IH]; intros ls; [reflexivity|]. cbn [copy_back_all].
+    specialize (IH (map (copy_back u) ls)). destruct (copy_back_all us (map (copy_back u) ls)) as [n ls'].
+    cbn [snd] in *. rewrite IH, map_map. apply map_ext. intros f. apply copy_back_url.
+  Qed.
+
+  Lemma refresh_array_urls ls force due oc fs :
+    map f_url (snd (fst (refresh_array crc ls force due oc fs))) = map f_url ls.
+  Proof.
+    unfold Refresh.refresh_array. destruct (map wcopy (filter _ ls)) as [|w0 wr]; [reflexivity|].
+    destruct (update_all crc (w0 :: wr) oc fs) as [us fs']. destruct (forallb u_err us); [reflexivity|].
+    pose proof (copy_back_all_urls us ls) as H. destruct (copy_back_all us ls) as [n ls']. exact H.
+  Qed.
+
+  Lemma refresh_urls b a force due oc st : urls (refresh crc b a force due oc st) = urls st.
+  Proof.
+    unfold urls, Refresh.refresh.
+    assert (H1 : map f_url (snd (fst (if b then refresh_array crc (r_block st) force due oc (r_files st)
+                                       else (0, false, r_block st, r_files st)))) = map f_url (r_block st))
+      by (destruct b; [apply refresh_array_urls|reflexivity]).
+    destruct (if b then _ else _) as [[[n1 e1] bl] fs1]. cbn [fst snd] in H1.
+    assert (H2 : map f_url (snd (fst (if a then refresh_array crc (r_allow st) force due oc fs1
+                                       else (0, false, r_allow st, fs1)))) = map f_url (r_allow st))
+      by (destruct a; [apply refresh_array_urls|reflexivity]).
+    destruct (if a then _ else _) as [[[n2 e2] al] fs2]. cbn [fst snd] in H2.
+    cbn [r_block r_allow]. now rewrite !map_app, H1, H2.
+  Qed.
+
+  (** The URL of the entry afterwards: the old one, or the URL of the request
+      when no list has it. *)
+  Lemma set_entry_url f name nurl dup en o fs :
+    let f' := snd (fst (set_entry crc f name nurl dup en o fs)) in
+    f_url f' = f_url f \/ (f_url f' = nurl /\ dup = false).
+  Proof.
+    unfold Refresh.set_entry. destruct (N.eqb_spec (f_url f) nurl) as [E|E]; cbn [negb andb].
+    - (* the URL is kept: every branch yields it *)
+      assert (TU : forall en', f_url (set_target f name nurl en') = f_url f).
+      { intros en'. unfold set_target. rewrite (proj2 (N.eqb_eq _ _) E). cbn [negb f_url]. now rewrite E. }
+      left. destruct en; [|cbn [fst snd]; unfold unload; cbn [f_url]; apply TU].
+      destruct (false || _); [|apply TU].
+      pose proof (update_one_cases crc (set_target f name nurl true) o fs) as C.
+      destruct (update_one crc (set_target f name nurl true) o fs) as [u fs'].
+      destruct (u_err u); [reflexivity|].
+      assert (f_url (u_list u) = f_url f).
+      { destruct C as [(_ & _ & ->)|(d & re & st & _ & _ & _ & _ & _ & -> & _)]; [apply TU|cbn [filled f_url]; apply TU]. }
+      destruct (u_updated u); assumption.
+    - destruct dup; [left; reflexivity|].
+      assert (TU : forall en', f_url (set_target f name nurl en') = nurl).
+      { intros en'. unfold set_target. destruct (negb _); reflexivity. }
+      destruct en; [|right; split; [cbn [fst snd]; unfold unload; cbn [f_url]; apply TU|reflexivity]].
+      cbn [orb].
+      pose proof (update_one_cases crc (set_target f name nurl true) o fs) as C.
+      destruct (update_one crc (set_target f name nurl true) o fs) as [u fs'].
+      destruct (u_err u); [left; reflexivity|]. right. split; [|reflexivity].
+      assert (f_url (u_list u) = nurl).
+      { destruct C as [(_ & _ & ->)|(d & re & st & _ & _ & _ & _ & _ & -> & _)]; [apply TU|cbn [filled f_url]; apply TU]. }
+      destruct (u_updated u); assumption.
+  Qed.
+
+  Lemma set_in_urls : forall ls u name nurl dup en o fs rs er ls' fs',
+    set_in crc ls u name nurl dup en o fs = Some (rs, er, ls', fs') ->
+    map f_url ls' = map f_url ls \/
+    (dup = false /\ exists pre f post f', ls = pre ++ f :: post /\ ls' = pre ++ f' :: post /\ f_url f' = nurl).
+  Proof.
+    induction ls as [|f ls IH]; intros u name nurl dup en o fs rs er ls' fs'; cbn [Refresh.set_in]; [discriminate|].
+    destruct (f_url f =? u).
+    - pose proof (set_entry_url f name nurl dup en o fs) as U.
+      destruct (set_entry crc f name nurl dup en o fs) as [[[rs0 er0] f0] fs0]. cbn [fst snd] in U.
+      intros H. injection H as _ _ <- _. destruct U as [U|[U D]].
+      + left. cbn [map]. now rewrite U.
+      + right. split; [exact D|]. exists [], f, ls, f0. auto.
+    - specialize (IH u name nurl dup en o fs).
+      destruct (set_in crc ls u name nurl dup en o fs) as [[[[rs0 er0] ls0] fs0]|]; [|discriminate].
+      intros H. injection H as _ _ <- _. destruct (IH rs0 er0 ls0 fs0 eq_refl) as [E|(D & pre & g & post & g' & -> & -> & G)].
+      + left. cbn [map]. now rewrite E.
+      + right. split; [exact D|]. exists (f :: pre), g, post, g'. auto.
+  Qed.
+
+  Lemma nodup_replace (pre post other : list N) (x y : N) (front : bool) :
+    NoDup (if front then (pre ++ x :: post) ++ other else other ++ (pre ++ x :: post)) ->
+    ~ In y (if front then (pre ++ x :: post) ++ other else other ++ (pre ++ x :: post)) ->
+    NoDup (if front then (pre ++ y :: post) ++ other else other ++ (pre ++ y :: post)).
+  Proof.
+    destruct front.
+    - rewrite <- !app_assoc. cbn [app]. intros ND Hy. apply NoDup_remove in ND. destruct ND as [ND Hx].
+      assert (Hy' : ~ In y (pre ++ post ++ other)).
+      { intros H. apply Hy. apply in_app_iff in H. apply in_app_iff. destruct H as [H|H]; [now left|right; now right]. }
+      clear Hx Hy. revert ND Hy'. induction pre as [|p pre IH]; cbn [app]; intros ND Hy'.
+      + constructor; assumption.
+      + inversion ND as [|? ? Hp ND']; subst. constructor.
+        * intros H. apply in_app_iff in H. destruct H as [H|[H|H]].
+          -- apply Hp, in_app_iff. now left.
+          -- apply Hy'. left. now symmetry.
+          -- apply Hp, in_app_iff. now right.
+        * apply IH; auto. intros H. apply Hy'. now right.
+    - rewrite !app_assoc. intros ND Hy. apply NoDup_remove in ND. destruct ND as [ND Hx].
+      assert (Hy' : ~ In y ((other ++ pre) ++ post)).
+      { intros H. apply Hy. apply in_app_iff in H. apply in_app_iff. destruct H as [H|H]; [now left|right; now right]. }
+      clear Hx Hy. revert ND Hy'. generalize (other ++ pre) as q. induction q as [|p q IH]; cbn [app]; intros ND Hy'.
+      + constructor; assumption.
+      + inversion ND as [|? ? Hp ND']; subst. constructor.
+        * intros H. apply in_app_iff in H. destruct H as [H|[H|H]].
+          -- apply Hp, in_app_iff. now left.
+          -- apply Hy'. left. now symmetry.
+          -- apply Hp, in_app_iff. now right.
+        * apply IH; auto. intros H. apply Hy'. now right.
+  Qed.
+
+  Lemma url_used_false nurl st : url_used nurl st = false -> ~ In nurl (urls st).
+  Proof.
+    unfold url_used, urls. intros H Hin. apply in_map_iff in Hin. destruct Hin as (f & E & Hf).
+    assert (existsb (fun f => f_url f =? nurl) (r_block st ++ r_allow st) = true)
+      by (apply existsb_exists; exists f; split; [exact Hf|now apply N.eqb_eq]).
+    congruence.
+  Qed.
+
+  Theorem set_props_urls allow u name nurl en o st :
+    NoDup (urls st) -> NoDup (urls (snd (set_props crc allow u name nurl en o st))).
+  Proof.
+    intros ND. unfold Refresh.set_props.
+    pose proof (set_in_urls (if allow then r_allow st else r_block st) u name nurl (url_used nurl st) en o (r_files st)) as S.
+    destruct (set_in crc _ u name nurl _ en o _) as [[[[rs er] ls'] fs']|]; [|exact ND].
+    cbn [snd]. unfold urls in *. cbn [r_block r_allow].
+    destruct (S rs er ls' fs' eq_refl) as [E|(D & pre & f & post & f' & E1 & -> & F)].
+    - destruct allow; rewrite map_app in *; now rewrite E.
+    - pose proof (url_used_false nurl st D) as Hn. unfold urls in Hn.
+      destruct allow; rewrite E1 in *; rewrite !map_app in *; cbn [map] in *; rewrite F.
+      + apply (nodup_replace (map f_url pre) (map f_url post) (map f_url (r_block st)) (f_url f) nurl false); assumption.
+      + apply (nodup_replace (map f_url pre) (map f_url post) (map f_url (r_allow st)) (f_url f) nurl true); assumption.
+  Qed.
+
+  (** Over every history the lists keep pairwise different URLs (so the
+      lookup by URL of set_url finds the one list that has it). *)
+  Theorem history_urls_unique hs : forall st, NoDup (urls st) -> NoDup (urls (run_hist crc hs st)).
+  Proof.
+    unfold run_hist. induction hs as [|h hs IH]; intros st ND; cbn [fold_left]; auto.
+    apply IH. destruct h; cbn [run_hop]; [now rewrite refresh_urls|now apply set_props_urls|exact ND].
+  Qed.
+End Urls.
+
+Example urls_unique_example : NoDup (urls RExamples.st1) /\ urls Ahead.st_later = [1; 11].
+Proof. split; [|vm_compute; reflexivity]. vm_compute. repeat constructor; cbn; intuition discriminate. Qed.
